@@ -1423,3 +1423,63 @@ Proof.
   split; [vm_compute; reflexivity|].
   eexists. eexists. split; [vm_compute; reflexivity|]. vm_compute. discriminate.
 Qed.
+
+(* ------------------------------------------------------------------ *)
+(* restore: every selected recorded file ends with the bytes of its     *)
+(* backup copy, whatever the data tree looked like before               *)
+(* ------------------------------------------------------------------ *)
+Lemma restore_effects_ok_gen b tasks keys :
+  Forall (fun k => under (backup_dir b) (key_path k) = false) keys ->
+  Forall (okG (fun p => under (backup_dir b) p) (fun d => backup_root b ++ d))
+         (restore_effects b tasks keys).
+Proof.
+  intros Hk. apply Forall_forall. intros e He.
+  unfold restore_effects in He. apply in_flat_map in He as (k & Hkin & He).
+  pose proof (proj1 (Forall_forall _ _) Hk k Hkin) as Hko. cbv beta in Hko.
+  assert (Hgen : In e (mkdirs [] (removelast (key_path k)) ++
+                       [Copy (backup_root b ++ key_path k) (key_path k)]) ->
+                 okG (fun p => under (backup_dir b) p) (fun d => backup_root b ++ d) e).
+  { intro Hin. apply in_app_or in Hin as [Hin | [<- | []]].
+    - apply in_mkdirs in Hin as (j & ->). simpl.
+      rewrite removelast_firstn_len, firstn_firstn. apply not_under_firstn. exact Hko.
+    - simpl. repeat split; [apply under_dir_root | exact Hko]. }
+  unfold restore_one in He. destruct tasks as [|t tasks]; [apply Hgen; exact He|].
+  destruct (task_selected (t :: tasks) (backup_root b ++ key_path k)); [apply Hgen; exact He | contradiction].
+Qed.
+
+Lemma restore_selected_lemma m f b tasks keys f' :
+  mgr_get m b = Some keys ->
+  Forall (fun k => under (backup_dir b) (key_path k) = false) keys ->
+  restore_backup m f b tasks = (f', Ok tt) ->
+  forall k, In k keys ->
+    (tasks = [] \/ task_selected tasks (backup_root b ++ key_path k) = true) ->
+    exists c, read f (backup_root b ++ key_path k) = Some c /\ read f' (key_path k) = Some c.
+Proof.
+  intros Hm Hk Hr k Hkin Hsel. unfold restore_backup in Hr. rewrite Hm in Hr.
+  destruct keys as [|k0 ks0] eqn:Ek; [discriminate|]. rewrite <- Ek in *. clear Ek.
+  eapply exec_copies; [apply restore_effects_ok_gen; exact Hk | exact Hr |].
+  unfold restore_effects. apply in_flat_map. exists k. split; [exact Hkin|].
+  unfold restore_one. destruct tasks as [|t tasks].
+  - apply in_or_app. right. left. reflexivity.
+  - destruct Hsel as [Hsel | Hsel]; [discriminate|]. rewrite Hsel.
+    apply in_or_app. right. left. reflexivity.
+Qed.
+
+(* ... hence two data trees with the same backup end with the same restored files:
+   the result of a restore is a function of the backup alone, not of the history *)
+Lemma restore_history_independent m b tasks keys f g f' g' :
+  mgr_get m b = Some keys ->
+  Forall (fun k => under (backup_dir b) (key_path k) = false) keys ->
+  (forall p, under (backup_dir b) p = true -> lookup f p = lookup g p) ->
+  restore_backup m f b tasks = (f', Ok tt) ->
+  restore_backup m g b tasks = (g', Ok tt) ->
+  forall k, In k keys ->
+    (tasks = [] \/ task_selected tasks (backup_root b ++ key_path k) = true) ->
+    read f' (key_path k) = read g' (key_path k).
+Proof.
+  intros Hm Hk Hfg Hf Hg k Hkin Hsel.
+  destruct (restore_selected_lemma m f b tasks keys f' Hm Hk Hf k Hkin Hsel) as (c & H1 & H2).
+  destruct (restore_selected_lemma m g b tasks keys g' Hm Hk Hg k Hkin Hsel) as (c' & H3 & H4).
+  rewrite H2, H4. unfold read in H1, H3. rewrite (Hfg _ (under_dir_root b (key_path k))) in H1.
+  congruence.
+Qed.
